@@ -58,7 +58,7 @@ func TestC11(t *testing.T) {
 	for i := 0; i < n; i++ {
 		s := rng.U64()
 		b := NewWorldBuilder(t)
-		g := &histGen{r: NewRng(s), b: b, tipOf: map[string]int{}, lastGood: map[string]int{}, opts: histOpts{globalRules: true, bfpEpisodes: true, fileRules: rng.Chance(15), delegation: rng.Chance(20)}}
+		g := &histGen{r: NewRng(s), b: b, tipOf: map[string]int{}, lastGood: map[string]int{}, opts: histOpts{globalRules: true, bfpEpisodes: true, fileRules: rng.Chance(40), delegation: rng.Chance(20)}}
 		g.run(3 + rng.Intn(8))
 		run(shard*1000000+i+1, nil, g.queries(), b, fmt.Sprintf("seed=%d", s))
 	}
